@@ -234,6 +234,12 @@ func runRegistry(planPath, outPath string, seed int64) {
 		handled := map[string]bool{}
 		h := regHistory{}
 		n := 3 + r.Intn(p.MaxOps)
+		if r.Intn(3) == 0 {
+			for _, hp := range hpool[:2+r.Intn(2)] {
+				handled[hp] = true
+				h.Ops = append(h.Ops, []string{"handle", hp})
+			}
+		}
 		for k := 0; k < n; k++ {
 			x := r.Intn(100)
 			switch {
